@@ -427,8 +427,14 @@ def check_result(cmd, left, right, res, before):
 def run_model(case, driver, run):
     if case.get('masks'):
         return {'skipped': True}
-    return driver.ask('dset', {'vars': case['vars'], 'cmds': [{k: v for k, v in c.items() if k != 'int'} for c in case['cmds']],
-                               'pinned': False})
+    def for_model(cmd):
+        cmd = {k: v for k, v in cmd.items() if k != 'int'}
+        rhs = cmd.get('rhs')
+        if isinstance(rhs, dict) and rhs.get('k') == 'array' and rhs.get('shape') == []:
+            # a 0-d array is a number for numpy (it broadcasts to any shape): the model's number
+            cmd['rhs'] = {'k': 'scalar', 'c': rhs['a'][0]}
+        return cmd
+    return driver.ask('dset', {'vars': case['vars'], 'cmds': [for_model(c) for c in case['cmds']], 'pinned': False})
 
 
 def close(a, b, ulps=4):
